@@ -366,6 +366,10 @@ ASSUMPTIONS = [
     "A6 warnings.warn does not raise",
 ]
 NOT_COVERED = {
+    "C13": ["compound locations (_lift_over_chromosome_location_compound_interval)", "alternative_genomic_sequence text "
+            "(single variant and collection; whole chromosome and chunk)", "incorporate_variants end-to-end",
+            "collections of more than two variants (induction over the composition lemma)",
+            "VCF records grouped by phase set (io/vcf/parser.py needs PyVCF and io.models: neither importable)"],
     "C18": ["GenBank features grouped by locus tag under permutation of records (io/genbank/parser.py does not import "
             "here; Biopython feature objects)", "io/gff3/parser.py:filter_and_sort_qualifiers"],
     "C01": ["CompoundInterval.relative_interval_to_parent_location and CompoundInterval._location_relative_to "
